@@ -119,15 +119,14 @@ Definition c04_expected_optional (e : c04_expect) : bool :=
 Definition c04_expected_null_union (L : lang) (e : c04_expect) : bool :=
   match L with TypeScript => 2 <=? c04e_depth e | _ => false end.
 
-(* recorded finding classes of the unchanged tree *)
+(* recorded finding classes of the unchanged tree.
+   (TypeScript's former class C04-ts-double-nonfield - `content?: T` / `type A = T | undefined` for Option<Option<T>>,
+   the `| null` missing - is repaired in /repo: `| null` is expected at every position, no carve-out.) *)
 Definition known_C04 (L : lang) (e : c04_expect) : option string :=
   match L with
   | Scala =>
     (* `x: T = _` for serde(default) on a non-Option field: neither Option[..] nor `= None` *)
     if c04_fieldlike (c04e_pos e) && c04e_default e && (c04e_depth e =? 0) then cls4 "C04-scala-default" else None
-  | TypeScript =>
-    (* content?: T  /  type A = T | undefined  for Option<Option<T>>: `| null` is not written *)
-    if negb (c04_fieldlike (c04e_pos e)) && (2 <=? c04e_depth e) then cls4 "C04-ts-double-nonfield" else None
   | _ => None
   end.
 
